@@ -35,7 +35,7 @@ from ser import Ser, Unsupported
 from props import c03 as J
 
 LEAN_MODULE = "Optyx.Props.C19"
-EXTRA_MODULES = ["Optyx.Props.PinsC19", "Optyx.Props.ClosurePathTie", "Optyx.Props.SymbolicJacTie"]   # transcription anchors (harness/source_pins.py)
+EXTRA_MODULES = ["Optyx.Props.PinsC19", "Optyx.Props.ClosurePathTie", "Optyx.Props.SymbolicJacTie", "Optyx.Props.ScaledTie"]   # transcription anchors (harness/source_pins.py)
 THEOREMS = [
     "Optyx.Props.Closures.closureTables_agree",
     "Optyx.Props.Closures.sanitizeShape_agrees",
@@ -51,6 +51,9 @@ THEOREMS = [
     "Optyx.Props.ClosurePathTie.compileJacobian_path",
     "Optyx.Props.SymbolicJacTie.computeJacobian_eq",
     "Optyx.Props.SymbolicJacTie.computeHessian_eq",
+    "Optyx.Props.ScaledTie.scaledEntry_eq",
+    "Optyx.Props.ScaledTie.scaledLoop_step",
+    "Optyx.Props.ScaledTie.scaledPattern_frame",
     "Optyx.Props.PinsC19.anchors",
 ]
 ASSUMPTIONS = [
